@@ -48,3 +48,8 @@ Proof. vm_compute. repeat split; reflexivity. Qed.
 Theorem C20_answers_renderable : forallb encoding_ok amino_encodings = true.
 Proof. vm_compute. reflexivity. Qed.
 Print Assumptions C20_answers_renderable.
+
+(* no flag option injects a value the user did not type, hides a field or names a field that does not exist *)
+Theorem C20_flags_send_what_is_typed : forallb (flag_option_ok services messages) flag_options = true.
+Proof. vm_compute. reflexivity. Qed.
+Print Assumptions C20_flags_send_what_is_typed.
